@@ -215,5 +215,7 @@ pub fn run(cfg: RunCfg) {
         st.wall_s = t0.elapsed().as_secs_f64();
         rep.add_manual(st);
     }
+    vh_core::fuzz_section!(rep, "history", history::strategy, history::check, "sec_bootstrap", "bootstrap", 200_000, 240, 8);
+    vh_core::fuzz_section!(rep, "corrupt", corrupt::strategy, corrupt::check, "sec_bootstrap", "bootstrap", 200_000, 150, 6);
     rep.finish();
 }
